@@ -37,18 +37,19 @@ ORDER_CODES = {"<": 0, ">": 1, "=": 2, "|": 3}
 class HBO:
     """heap object: byte-order view of an array; names is None for a plain array (single field keyed None)"""
 
-    def __init__(self, names, order, raw, fresh=True, buf=None):
+    def __init__(self, names, order, raw, fresh=True, buf=None, parent=None):
         self.names = names
         self.order = dict(order)
         self.raw = dict(raw)
         self.fresh = fresh
         self.buf = buf
+        self.parent = parent      # (Ref of the structured array, field name) for a field view: in-place writes go through
 
     def keys(self):
         return [None] if self.names is None else list(self.names)
 
     def replace(self, **kw):
-        o = HBO(self.names, self.order, self.raw, self.fresh, self.buf)
+        o = HBO(self.names, self.order, self.raw, self.fresh, self.buf, self.parent)
         for k, v in kw.items():
             setattr(o, k, v)
         return o
@@ -138,14 +139,25 @@ class BOMixin:
             return OrderV(d.order[None])
         if attr == "newbyteorder":
             return Bound(d, Prim("bodtype.newbyteorder"))
+        if attr == "isnative":
+            # numpy: True when every field is in native order or has no order ('|')
+            return zand(*[zor(o == 3, z3.If(MACHINE_LITTLE, declared_little(o), declared_big(o))) for o in d.order.values()])
         if attr == "descr":
             raise Unsupported("dtype.descr of a byte-order array (use the descr model)", node)
         raise Unsupported("dtype attribute ." + attr, node)
 
     def p_bodtype_newbyteorder(self, args, kw, st, fr, node):
         d = args[0]
-        if len(args) > 1 or kw:
-            raise Unsupported("newbyteorder with an argument", node)
+        if kw or len(args) > 2:
+            raise Unsupported("newbyteorder with keyword arguments", node)
+        if len(args) == 2:
+            if args[1] not in ("=", "<", ">", "S", "s", "N", "n", "L", "l", "B", "b"):
+                raise Unsupported("newbyteorder(%r)" % (args[1],), node)
+            if args[1] in ("S", "s"):
+                return BODType(None, d.names, {k: z3.simplify(flipped(o)) for k, o in d.order.items()})
+            code = {"=": 2, "N": 2, "n": 2, "<": 0, "L": 0, "l": 0, ">": 1, "B": 1, "b": 1}[args[1]]
+            # fields without a byte order keep '|'
+            return BODType(None, d.names, {k: z3.simplify(z3.If(o == 3, z3.IntVal(3), z3.IntVal(code))) for k, o in d.order.items()})
         return BODType(None, d.names, {k: z3.simplify(flipped(o)) for k, o in d.order.items()})
 
     def bo_setattr(self, base, attr, v, st, fr, node):
@@ -175,7 +187,7 @@ class BOMixin:
             if h.names is None or idx not in h.names:
                 self.oblige(st, False, "safety", "field-present:%s" % idx, node, fr)
                 return self.kill(st, "missing field")
-            return st.alloc(HBO(None, {None: h.order[idx]}, {None: h.raw[idx]}, fresh=h.fresh, buf=h.buf))
+            return st.alloc(HBO(None, {None: h.order[idx]}, {None: h.raw[idx]}, fresh=h.fresh, buf=h.buf, parent=(base, idx)))
         raise Unsupported("subscript of a byte-order array with a non-name", node)
 
     # ---- ndarray methods on byte-order arrays
@@ -199,6 +211,14 @@ class BOMixin:
         if inplace is True:
             self.bo_frame(ref, st, fr, node, "bytes")
             st.put(ref, h.replace(raw=raw))
+            if h.parent is not None:
+                # a field view shares the parent's buffer: the parent sees the swapped bytes
+                pref, fname = h.parent
+                ph = st.get(pref)
+                if isinstance(ph, HBO) and fname in ph.raw:
+                    praw = dict(ph.raw)
+                    praw[fname] = raw[None]
+                    st.put(pref, ph.replace(raw=praw))
             return ref
         if inplace is False:
             r = st.alloc(HBO(h.names, h.order, raw, fresh=True))
